@@ -98,6 +98,14 @@ pub struct NetInner {
     pub delivered: u64,
     /// source labels of crashed instances: their connections are dead and they cannot connect
     pub dead_sources: BTreeSet<String>,
+    /// directed faults: "the next n messages with this command name stay in flight for up to x ms
+    /// longer, and somebody is told their key the moment they are sent"
+    pub watches: Vec<Watch>,
+    /// connection id -> source label
+    pub conn_src: BTreeMap<u64, String>,
+    /// control messages between proxies / from the coordinator, for post-mortem classification:
+    /// (seq, source label, destination, command name, first argument)
+    pub proxy_msgs: Vec<(u64, String, String, String, Vec<u8>)>,
     /// bumped every time an address is (re-)registered: connections to an older instance are dead
     pub endpoint_gen: BTreeMap<String, u64>,
 }
@@ -170,6 +178,9 @@ impl Net {
                 calls: vec![],
                 delivered: 0,
                 dead_sources: BTreeSet::new(),
+                watches: vec![],
+                conn_src: BTreeMap::new(),
+                proxy_msgs: vec![],
                 endpoint_gen: BTreeMap::new(),
             })),
         }
@@ -225,6 +236,13 @@ impl Net {
         g.trace.add(detail.as_bytes());
         g.sched.add_u64(chan);
         g.sched.add(kind.as_bytes());
+        // debugging aid (never set in checks): VERIF_TRACE=<substring> prints the matching events
+        static TRACE: std::sync::OnceLock<Option<String>> = std::sync::OnceLock::new();
+        if let Some(pat) = TRACE.get_or_init(|| std::env::var("VERIF_TRACE").ok()) {
+            if detail.contains(pat.as_str()) || kind.contains(pat.as_str()) {
+                eprintln!("[trace t={}ms seq={} chan={:x}] {} {}", now, g.seq, chan % 0xffff, kind, detail);
+            }
+        }
         g.seq
     }
 
@@ -242,6 +260,36 @@ impl Net {
             return base * f;
         }
         base
+    }
+
+    pub fn add_watch(&self, w: Watch) {
+        self.inner.lock().watches.push(w);
+    }
+
+    /// extra in-flight time for a message that matches a watch (the watcher is notified now)
+    fn directed_delay(&self, chan: u64, cmd: &[Vec<u8>]) -> u64 {
+        let mut g = self.inner.lock();
+        if g.watches.is_empty() || cmd.is_empty() {
+            return 0;
+        }
+        let seed = g.seed;
+        let seq = g.seq;
+        let mut extra = 0;
+        let mut fired = false;
+        for w in g.watches.iter_mut() {
+            if w.uses_left > 0 && cmd[0].eq_ignore_ascii_case(w.cmd.as_bytes()) {
+                w.uses_left -= 1;
+                extra = extra.max(hash3(seed ^ 0xd1ec7ed, chan, seq) % (w.extra_ms_max + 1));
+                if let (Some(tx), Some(key)) = (w.notify.as_ref(), cmd.get(1)) {
+                    let _ = tx.unbounded_send(key.clone());
+                }
+                fired = true;
+            }
+        }
+        if fired {
+            *g.fault_counts.entry("directed_delay_of_watched_message".to_string()).or_insert(0) += 1;
+        }
+        extra
     }
 
     pub fn set_latency_spikes(&self, per_mille: u64, factor_max: u64) {
@@ -376,6 +424,7 @@ impl Net {
             let mut g = self.inner.lock();
             let id = g.next_conn;
             g.next_conn += 1;
+            g.conn_src.insert(id, src.to_string());
             id
         };
         let chan = hash3(stream_id(src), stream_id(dst), id);
@@ -406,6 +455,13 @@ struct Mid {
     call_idx: Option<usize>,
 }
 
+pub struct Watch {
+    pub cmd: String,
+    pub uses_left: u32,
+    pub extra_ms_max: u64,
+    pub notify: Option<mpsc::UnboundedSender<Vec<u8>>>,
+}
+
 #[derive(Clone)]
 pub struct Conn {
     tx: mpsc::UnboundedSender<Req>,
@@ -424,7 +480,7 @@ impl Conn {
     }
 }
 
-fn exec_at(net: &Net, ep: &Endpoint, chan: u64, conn_id: u64, cmd: &[Vec<u8>], packet: Option<RespPacket>) -> Pin<Box<dyn Future<Output = Result<RespVec, ()>> + Send>> {
+fn exec_at(net: &Net, ep: &Endpoint, dst: &str, chan: u64, conn_id: u64, cmd: &[Vec<u8>], packet: Option<RespPacket>) -> Pin<Box<dyn Future<Output = Result<RespVec, ()>> + Send>> {
     match ep {
         Endpoint::Redis(r) => {
             let seq = net.event("deliver", chan, &cmd_brief(cmd));
@@ -433,7 +489,16 @@ fn exec_at(net: &Net, ep: &Endpoint, chan: u64, conn_id: u64, cmd: &[Vec<u8>], p
             Box::pin(async move { Ok(reply) })
         }
         Endpoint::Proxy(h) => {
-            net.event("deliver_proxy", chan, &cmd_brief(cmd));
+            let seq = net.event("deliver_proxy", chan, &cmd_brief(cmd));
+            if let Some(name) = cmd.first() {
+                let (is_sync, is_ctl) = (name.eq_ignore_ascii_case(b"UMSYNC"), name.eq_ignore_ascii_case(b"UMCTL"));
+                if is_sync || is_ctl {
+                    let mut g = net.inner.lock();
+                    let src = g.conn_src.get(&conn_id).cloned().unwrap_or_default();
+                    let (n, a) = if is_sync { ("UMSYNC".to_string(), cmd.get(1).cloned().unwrap_or_default()) } else { (format!("UMCTL {}", cmd.get(1).map(|x| String::from_utf8_lossy(x).to_uppercase()).unwrap_or_default()), cmd.get(3).cloned().unwrap_or_default()) };
+                    g.proxy_msgs.push((seq, src, dst.to_string(), n, a));
+                }
+            }
             let pkt = packet.unwrap_or_else(|| RespPacket::from_resp_vec(cmd_to_resp(cmd)));
             let h2 = h.clone();
             let (tx, rx) = oneshot::channel::<Result<RespVec, ()>>();
@@ -454,7 +519,7 @@ fn exec_at(net: &Net, ep: &Endpoint, chan: u64, conn_id: u64, cmd: &[Vec<u8>], p
 async fn deliverer(net: Net, ep: Endpoint, ep_gen: u64, chan: u64, conn_id: u64, src: String, dst: String, mut rx: mpsc::UnboundedReceiver<Req>, mid: mpsc::UnboundedSender<Mid>) {
     let mut last = Instant::now();
     while let Some(req) = rx.next().await {
-        let lat = net.latency(chan);
+        let lat = net.latency(chan) + net.directed_delay(chan, &req.cmd);
         let mut at = req.sent_at + Duration::from_millis(lat);
         if at < last {
             at = last;
@@ -492,26 +557,26 @@ async fn deliverer(net: Net, ep: Endpoint, ep_gen: u64, chan: u64, conn_id: u64,
                 net.event("fault_stall", chan, &cmd_brief(&req.cmd));
                 tokio::time::sleep(Duration::from_millis(ms)).await;
                 last = Instant::now();
-                let fut = exec_at(&net, &ep, chan, conn_id, &req.cmd, req.packet);
+                let fut = exec_at(&net, &ep, &dst, chan, conn_id, &req.cmd, req.packet);
                 let _ = mid.unbounded_send(Mid { fut, reply: req.reply, drop_reply: false, call_idx });
             }
             Some(FaultKind::Duplicate) => {
                 net.event("fault_duplicate", chan, &cmd_brief(&req.cmd));
-                let fut = exec_at(&net, &ep, chan, conn_id, &req.cmd, req.packet.clone());
+                let fut = exec_at(&net, &ep, &dst, chan, conn_id, &req.cmd, req.packet.clone());
                 let _ = mid.unbounded_send(Mid { fut, reply: req.reply, drop_reply: false, call_idx });
                 // the duplicate is delivered a little later; its reply is discarded
-                let fut2 = exec_at(&net, &ep, chan, conn_id, &req.cmd, req.packet);
+                let fut2 = exec_at(&net, &ep, &dst, chan, conn_id, &req.cmd, req.packet);
                 tokio::spawn(async move {
                     let _ = fut2.await;
                 });
             }
             Some(FaultKind::DropReply) => {
                 net.event("fault_drop_reply", chan, &cmd_brief(&req.cmd));
-                let fut = exec_at(&net, &ep, chan, conn_id, &req.cmd, req.packet);
+                let fut = exec_at(&net, &ep, &dst, chan, conn_id, &req.cmd, req.packet);
                 let _ = mid.unbounded_send(Mid { fut, reply: req.reply, drop_reply: true, call_idx });
             }
             None => {
-                let fut = exec_at(&net, &ep, chan, conn_id, &req.cmd, req.packet);
+                let fut = exec_at(&net, &ep, &dst, chan, conn_id, &req.cmd, req.packet);
                 let _ = mid.unbounded_send(Mid { fut, reply: req.reply, drop_reply: false, call_idx });
             }
         }
